@@ -46,6 +46,11 @@ Theorem C11_wrap : forall st v, val_ok st v ->
 Proof. exact wrap_spec. Qed.
 Print Assumptions C11_wrap.
 
+(* Wrap is idempotent: wrapping its own result returns that result and leaves the store alone *)
+Theorem C11_wrap_idempotent : forall st v, let '(st1, r1) := wrap st v in wrap st1 r1 = (st1, r1).
+Proof. exact wrap_idem. Qed.
+Print Assumptions C11_wrap_idempotent.
+
 (* every history of New/plain/nil/typed-nil/&Error{}/Append/Wrap operations, with NO side condition (the accumulator may be its
    own argument, an aggregate may be appended to itself): every value handed out refers to an existing head - so the hypothesis
    val_ok of the theorems above is met by whatever a program has built -, the k-th operation defines the k-th value, and every
